@@ -15,6 +15,7 @@ type ScopeProg struct {
 	Neg   string            `json:"neg,omitempty"`   // kind of forbidden declaration injected ("" = positive program)
 	Names []string          `json:"names,omitempty"` // the name set (default a,b,c,d)
 	Tags  map[string]string `json:"tags"`            // tag -> descriptor of the statement that logs it
+	Bltn  string            `json:"bltn,omitempty"`  // one name of the set that the builtins module also binds (value "B:<name>")
 	Pad   int               `json:"pad,omitempty"`   // padding: this many extra module-level names/constants and extra locals per function (index arithmetic beyond 255)
 }
 
@@ -49,6 +50,7 @@ var Scale = 1
 
 type scopeGen struct {
 	pad   bool
+	bltn  string
 	names []string
 	r     *simrt.Rand
 	n     int
@@ -90,6 +92,10 @@ func GenScope(r *simrt.Rand, maxDepth int) *ScopeProg {
 		// more names: more cell / free variable slots per scope
 		g.names = []string{"a", "b", "c", "d", "e", "f_", "g_", "h_", "i_", "j_"}[:5+r.Intn(6)]
 	}
+	if r.Chance(1, 3) {
+		// the last stop of every lookup: one name is also a builtin
+		g.bltn = g.names[r.Intn(len(g.names))]
+	}
 	root := &Scope{Kind: "module", Name: "<module>"}
 	si := &scopeInfo{kind: "module", locals: map[string]bool{}, nonloc: map[string]bool{}}
 	g.fill(root, si, 0, maxDepth)
@@ -97,6 +103,7 @@ func GenScope(r *simrt.Rand, maxDepth int) *ScopeProg {
 	if g.pad {
 		p.Pad = 257 + r.Intn(10)
 	}
+	p.Bltn = g.bltn
 	if r.Chance(1, 6) {
 		g.injectNegative(p)
 	}
@@ -172,6 +179,11 @@ func (g *scopeGen) fill(sc *Scope, si *scopeInfo, depth, maxDepth int) {
 	for i := 0; i < nstm; i++ {
 		n := g.pick()
 		switch x := r.Intn(20); {
+		case x == 4 && sc.Kind == "func" && r.Chance(1, 3) && role(n) == "free" && !si.enclosingFuncBinds(n):
+			// a name that resolves to a global or builtin, read, then the module
+			// namespace changes under the running frame (one global leaves, this
+			// one arrives), read again in the same frame
+			body = append(body, &Stmt{K: "gswap", N: n, Form: []string{"_scratch1", "_scratch2"}[r.Intn(2)], Tag: g.tag("gswap:" + where + ":" + role(n))})
 		case x == 5 && sc.Kind == "class" && r.Chance(1, 2):
 			// a name placed in the class namespace without a binding statement:
 			// lookups in the class body find it there first
@@ -330,6 +342,10 @@ func (p *ScopeProg) Render() string {
 	for i := 0; i < p.Pad; i++ {
 		fmt.Fprintf(&b, "_p%d = \"p%d\"\n", i, i)
 	}
+	if p.Bltn != "" {
+		fmt.Fprintf(&b, "import builtins\nbuiltins.%s = \"B:%s\"\ndel builtins\n", p.Bltn, p.Bltn)
+	}
+	b.WriteString("_scratch1 = 0\n_scratch2 = 0\n")
 	b.WriteString("from simlog import log, exc_name\nK = []\nclass _CM:\n    def __init__(self, v):\n        self.v = v\n    def __enter__(self):\n        return self.v\n    def __exit__(self, *a):\n        return False\n")
 	renderStmts(&b, p.Root, p.Root.Stmts, 0)
 	b.WriteString("for _k in list(K):\n    try:\n        _k(\"kcall\")\n    except Exception as _e:\n        log(\"kcall\", exc_name(_e))\n")
@@ -399,6 +415,13 @@ func renderStmts(b *strings.Builder, sc *Scope, stmts []*Stmt, ind int) {
 			}
 		case "use":
 			w("try:\n    log(\"%s\", %s)\nexcept NameError as _e:\n    log(\"%s\", exc_name(_e))", st.Tag, st.N, st.Tag)
+		case "gswap":
+			use := func(k string) {
+				w("try:\n    log(\"%s\", \"%s\", %s)\nexcept NameError as _e:\n    log(\"%s\", \"%s\", exc_name(_e))", st.Tag, k, st.N, st.Tag, k)
+			}
+			use("before")
+			w("def _sw():\n    global %s, %s\n    try:\n        del %s\n    except NameError:\n        pass\n    %s = \"%s\"\n_sw()", st.N, st.Form, st.Form, st.N, st.Tag)
+			use("after")
 		case "nsbind":
 			w("locals()[\"%s\"] = \"%s\"", st.N, st.Tag)
 		case "snapdel":
